@@ -302,3 +302,43 @@ func wfRangeReq(o *ObjectRangeRequest) bool {
 //@ ensures [C06]     gone:   imp(ret0 == nil, !has(u.buckets[bucket].uploads, id))
 //@ ensures [C06]     nostore: store_gen == old(store_gen) && put_count == old(put_count)
 //@ ensures           locks:  u.mu == 0
+
+//@ func (*uploader).ListParts
+//@ props C14 C09
+//@ let M = u.buckets[bucket].uploads[uploadID]
+//@ let R = ret0.Parts
+//@ requires          inv:    uploaderInv(u)
+//@ requires          free:   u.mu == 0
+//@ requires          args:   marker >= 0 && limit >= 0
+//@ loop 1 invariant  idx:    -1 <= rangeindex && rangeindex < len(mpu.parts) && !result.IsTruncated
+//@ loop 1 invariant  cnt:    cnt == len(result.Parts) && 0 <= cnt && cnt <= limit
+//@ loop 1 invariant  each:   all(k, 0, len(result.Parts), marker < result.Parts[k].PartNumber && result.Parts[k].PartNumber <= rangeindex &&
+//@                             mpu.parts[result.Parts[k].PartNumber] != nil &&
+//@                             result.Parts[k].Size == len(mpu.parts[result.Parts[k].PartNumber].Body) &&
+//@                             result.Parts[k].ETag == mpu.parts[result.Parts[k].PartNumber].ETag)
+//@ loop 1 invariant  asc:    all(k, 0, len(result.Parts) - 1, result.Parts[k].PartNumber < result.Parts[k+1].PartNumber)
+//@ loop 1 invariant  compl:  all(j, 0, rangeindex + 1, imp(j > marker && mpu.parts[j] != nil,
+//@                             ex(k, 0, len(result.Parts), result.Parts[k].PartNumber == j)))
+//@ loop 1 invariant  next:   imp(len(result.Parts) > 0, result.NextPartNumberMarker == result.Parts[len(result.Parts)-1].PartNumber) && imp(len(result.Parts) == 0, result.NextPartNumberMarker == 0)
+//@ ensures [C14]     absent: imp(ret1 != nil, ret0 == nil && errcode(ret1) == ErrNoSuchUpload)
+//@ ensures [C14]     found:  imp(has(u.buckets, bucket) && has(u.buckets[bucket].uploads, uploadID) &&
+//@                             M.Bucket == bucket && M.Object == object, ret1 == nil)
+//@ ensures [C14]     limit:  imp(ret1 == nil, ret0 != nil && len(R) <= limit)
+//@ ensures [C14]     each:   imp(ret1 == nil, all(k, 0, len(R), 0 <= R[k].PartNumber && R[k].PartNumber < len(M.parts) &&
+//@                             M.parts[R[k].PartNumber] != nil && R[k].Size == len(M.parts[R[k].PartNumber].Body) &&
+//@                             R[k].ETag == M.parts[R[k].PartNumber].ETag))
+//@ ensures [C14]     asc:    imp(ret1 == nil, all(k, 0, len(R) - 1, R[k].PartNumber < R[k+1].PartNumber))
+//@ alt conv/excl
+//@ ensures [C14]     after:  imp(ret1 == nil, all(k, 0, len(R), R[k].PartNumber > marker))
+//@ ensures [C14]     compl:  imp(ret1 == nil, all(j, 0, len(M.parts), imp(j > marker && M.parts[j] != nil &&
+//@                             (!ret0.IsTruncated || j <= ret0.NextPartNumberMarker), ex(k, 0, len(R), R[k].PartNumber == j))))
+//@ ensures [C14]     next:   imp(ret1 == nil && ret0.IsTruncated && limit >= 1, len(R) > 0 && ret0.NextPartNumberMarker == R[len(R)-1].PartNumber)
+//@ alt conv/incl
+//@ ensures [C14]     after:  imp(ret1 == nil, all(k, 0, len(R), R[k].PartNumber >= marker))
+//@ ensures [C14]     compl:  imp(ret1 == nil, all(j, 0, len(M.parts), imp(j >= marker && M.parts[j] != nil &&
+//@                             (!ret0.IsTruncated || j < ret0.NextPartNumberMarker), ex(k, 0, len(R), R[k].PartNumber == j))))
+//@ ensures [C14]     next:   imp(ret1 == nil && ret0.IsTruncated && limit >= 1, len(R) > 0 && ret0.NextPartNumberMarker > R[len(R)-1].PartNumber)
+//@ endalt
+//@ ensures [C14]     more:   imp(ret1 == nil && ret0.IsTruncated, ex(j, 0, len(M.parts), M.parts[j] != nil && all(k, 0, len(R), R[k].PartNumber != j) && j > marker))
+//@ ensures [C14]     same:   unchanged()
+//@ ensures           locks:  u.mu == 0
